@@ -49,7 +49,9 @@ use std::sync::Arc;"""),
            ensures=[C("hash", "res == Address(h1(enc_all(self@)->Some_0))", "C12", "C04")]),
         Fn(L, "covenant_weight_from_bytes", home="C05", implicit_props=("C09", "C05", "C11"),
            ensures=[C("weight", "res as int == (match dec_all(b@) { Some(ops) => spec_weight(ops), None => 0 })", "C05", "C11",
-                      note="the weight a transaction is charged for a covenant: the weight of the decoded program, 0 for bytes that do not decode")],
+                      note="the weight a transaction is charged for a covenant: the weight of the decoded program, 0 for bytes that do not decode"),
+                    C("named", "res as nat == spec_cov_weight_b(b@)", "C05", note="the name under which the other units (apply, batch, deptx) use this result")],
+           injects=[Inject("entry", "proof { axiom_cov_weight_def(b@); }")],
            closures=[Closure(0, "b: Covenant", "(r: u128)", ensures=[C("w", "r as int == spec_weight(b@)", "C05")])]),
     ],
 )
